@@ -85,7 +85,8 @@ def loop (fuel : Nat) (states : List State) (ctx : Ctx) (acc : List Ctx) : Outco
   match fuel with
   | 0 => .diverge
   | fuel + 1 =>
-    let (ctx', wrote) := fill states ctx false
+    -- `states` is the reversed list (innermost first); the context is filled outermost first
+    let (ctx', wrote) := fill states.reverse ctx false
     let acc' := if wrote then ctx' :: acc else acc
     match advance states true with
     | .stop => .ok acc'.reverse
